@@ -32,6 +32,7 @@ import (
 //   - the serialisers of structure types — Bytes / RawBytes / Serialize, and Data where it serialises the whole value
 //     (Mapping.Data, KeyCertificate.Data): "returns the binary representation … serializes back to []byte";
 //   - accessors whose doc comment promises a copy (transcribed from /repo's doc comments, file named for each).
+//
 // Everything else (Certificate.Data — "returns the payload", the conversions Integer.Bytes / I2PString results,
 // Date/Hash arrays) may be a view by contract: aliasing there is counted, never reported.
 var documentedCopies = map[string]string{
